@@ -118,7 +118,7 @@ func (e *Engine) findAnchoredLiteral(haystack []byte) *Match {
 // findAtNonZero dispatches to the appropriate strategy for non-zero positions.
 // This is a helper function to reduce cyclomatic complexity in FindAt.
 func (e *Engine) findAtNonZero(haystack []byte, at int) *Match {
-	switch e.strategy {
+	switch e.searchStrategy() {
 	case UseNFA:
 		return e.findNFAAt(haystack, at)
 	case UseDFA:
